@@ -14,7 +14,7 @@ def run(run):
     run.assumptions += [
         "expressions / conditions are arbitrary functions of the record (the theorems do not depend on csvq's evaluator); the correspondence stream uses comparison, AND/OR/NOT, IS NULL and integer arithmetic on integer / NULL / plain-string cells",
         "statements executed inside nested blocks (IF, WHILE, function bodies, PREPARE/EXECUTE) have the semantics of the same statement at the top level: the model has one level of tables (publication to the DECLARING block - ReplaceTemporaryTable - is observed by the stream, not proved)",
-        "STDIN: csvq takes the stdin lock again for every data-changing statement (the loaded stdin view is never marked 'for update'), so a second such statement in one transaction fails after the lock wait time-out; the streams therefore COMMIT after every statement that touches STDIN (reported to the coordinator as a finding, not asserted by this check)",
+        "STDIN is treated like any other table (several data-changing statements per transaction, COMMIT and ROLLBACK); a lock wait time-out (error 90082) is never legitimate in these single-process runs: law stdin_second_statement_timeout (fixed finding, 1986c14)",
         "REPLACE key equivalence: any Boolean relation in the theorems; SortValues.EquivalentTo (C07 model) in the driver",
         "known finding F41 - property-text reading 'REPLACE appends the OTHERS': proved only when the given rows have pairwise non-equivalent keys (replace_appended_keys_are_new_partial); the code appends a later given row whose key exists (replace_appended_keys_are_new_counterexample compiles on every run; the corpus witness REPLACE INTO tw (id, v) USING (id) VALUES (1,'b'),(1,'c') on tw = (1,a),(2,x) is run first for every seed and must still fail the law replace_appended_row_with_existing_key); the model describes the code as it behaves",
     ]
@@ -25,7 +25,7 @@ def run(run):
             run.stream("c05", 20000, seed_offset=k)
     return run.finish(
         level="proof",
-        rule="corpus first (F41 witness; the STDIN table as the target of every statement kind and as one table of the multi-table forms, at top level and inside blocks; every statement kind against top-level temporary tables and a file table executed inside IF / nested IF-ELSE / WHILE / a user-defined function body / PREPARE-EXECUTE, the table read back after the block ended; F4 witness), then statement sequences of 1-30 statements (state carried, COMMIT interleaved) over 1-3 tables per sequence, file-backed CSV, temporary (DECLARE VIEW) and - in a third of the sequences - the session's STDIN table, 0-400 rows, @@CPU 1-4: INSERT VALUES / INSERT SELECT, single- and multi-table UPDATE / DELETE (cross join and JOIN ON, one or two targets), REPLACE (VALUES and SELECT source) with 0-44 unmatched rows and keys id / data column / both, VALUES cells that are scalar sub-queries reading a cell of another table, a quarter of the statements wrapped in a nested block / function / prepared statement, ALTER ADD (FIRST/LAST/BEFORE/AFTER, DEFAULT expr) / DROP / RENAME; cells integers, NULL, plain strings; conditions from =,<>,<,<=,>,>=, IS NULL, %, AND/OR/NOT; non-trivial = distinct (statement kind, outcome, storage, size band, cpu, position in sequence, count band) signature",
+        rule="corpus first (F41 witness; the STDIN table as the target of every statement kind and as one table of the multi-table forms, at top level and inside blocks; every statement kind against top-level temporary tables and a file table executed inside IF / nested IF-ELSE / WHILE / a user-defined function body / PREPARE-EXECUTE, the table read back after the block ended; F4 witness), then statement sequences of 1-30 statements (state carried, COMMIT and ROLLBACK interleaved, every table read back and compared with the model after a ROLLBACK) over 1-3 tables per sequence, file-backed CSV, temporary (DECLARE VIEW) and - in a third of the sequences - the session's STDIN table, 0-400 rows, @@CPU 1-4: INSERT VALUES / INSERT SELECT, single- and multi-table UPDATE / DELETE (cross join and JOIN ON, one or two targets), REPLACE (VALUES and SELECT source) with 0-44 unmatched rows and keys id / data column / both, VALUES cells that are scalar sub-queries reading a cell of another table, a quarter of the statements wrapped in a nested block / function / prepared statement, ALTER ADD (FIRST/LAST/BEFORE/AFTER, DEFAULT expr) / DROP / RENAME; cells integers, NULL, plain strings; conditions from =,<>,<,<=,>,>=, IS NULL, %, AND/OR/NOT; non-trivial = distinct (statement kind, outcome, storage, size band, cpu, position in sequence, count band) signature",
         trusted_base=BASE_TRUST + ["C06 comparison/arithmetic model and C07 SortVal.equiv used by the driver's expression evaluator"],
         checker_cmd="cd /verif/lean && lake build Csvq.Props.C05 && lake env lean <#print axioms for every theorem>",
     )
